@@ -126,13 +126,15 @@ pub async fn run_intro_op(ctx: &Ctx, op: AOp, info: &TaskInfo, handle: &Handle) 
             if let Err(e) = handle.submit_introspection() {
                 return ctx.check_err("submit_introspection", &e);
             }
+            // A submit carries everything registered *up to this point* (requests reach the client
+            // in program order); what sibling tasks register while we wait is not part of it.
+            let local: Vec<u32> = ctx.res.borrow().intro_local.iter().copied().collect();
             if blocked(info, "Handle::sync_broker", true, handle.sync_broker()).await.is_err() {
                 return;
             }
             // The broker has processed the registration (FIFO with the sync); clients below 1.17
-            // do not submit anything. A submit always carries everything registered so far.
+            // do not submit anything.
             if ctx.minor >= 17 && !ctx.client_faulted.get() {
-                let local: Vec<u32> = ctx.res.borrow().intro_local.iter().copied().collect();
                 let mut bb = ctx.bb.borrow_mut();
                 for t in local {
                     bb.intro_registrants.entry(t).or_default().insert(ctx.client);
